@@ -6,6 +6,8 @@ OUT = sys.argv[1]
 ids = sys.argv[2:] or sorted(d for d in os.listdir(OUT) if d.startswith("C"))
 for pid in ids:
     for n in sorted(os.listdir(os.path.join(OUT, pid))):
+        if os.environ.get("SEED_N") and n not in os.environ["SEED_N"].split(","):
+            continue
         d = os.path.join(OUT, pid, n)
         patch = os.path.join(d, "patch.diff")
         if not os.path.isfile(patch):
